@@ -21,7 +21,7 @@ fn opt_hex(o: Option<&[u8]>) -> String { match o { Some(b) => format!(":{}", hex
 pub fn sig_line(s: &Signature) -> String {
     let a = s.generate_ja4();
     let o = s.generate_ja4_original();
-    let ver = match s.version { TlsVersion::Unknown(c) => format!("{}:{:04x}", s.version, c), v => format!("{}", v) };
+    let ver = match s.version { TlsVersion::Unknown(c) if s.version.to_string() == "00" => format!("00:{:04x}", c), v => format!("{}", v) };
     format!(
         "{} {} {} {} ver={} sni={} alpn={} ciphers={} exts={} sigalgs={} groups={} fmts={}",
         esc(a.full.value()), esc(a.raw.value()), esc(o.full.value()), esc(o.raw.value()), ver,
